@@ -252,6 +252,35 @@ static int do_used(uint64_t seed, int n, const char *outname, const char *tmpdir
 // ---- unit relations ------------------------------------------------------------
 // input lines "unit a|unit b|mantissa|exponent": 1 a = mantissa x 10^exponent b.  Output: the relative deviation of
 // UnitConverter::convert(1, a, b) from that factor in units of 1e-12 (capped).
+
+// to_SI< q > / to_unit< q > for a quantity given by name (the interface is templated on the quantity)
+#define CMI_QLIST(X)                                                                                                  \
+  X(ACCELERATION) X(ANGLE) X(DENSITY) X(ENERGY) X(ENERGY_CHANGE_RATE) X(ENERGY_RATE) X(FLUX) X(FORCING_POWER)         \
+  X(FREQUENCY) X(FREQUENCY_PER_MASS) X(INVERSE_LENGTH) X(INVERSE_SURFACE_AREA) X(LENGTH) X(MASS) X(MASS_RATE)         \
+  X(MOMENTUM) X(NUMBER_DENSITY) X(OPACITY) X(PRESSURE) X(REACTION_RATE) X(SURFACE_AREA) X(SURFACE_DENSITY)            \
+  X(TEMPERATURE) X(TIME) X(VELOCITY) X(VOLUME)
+static bool q_convert(const std::string &q, double v, const std::string &u, double &si, double &back,
+                      std::string &siname) {
+#define X(N)                                                                                                          \
+  if (q == #N) {                                                                                                      \
+    si = UnitConverter::to_SI< QUANTITY_##N >(v, u);                                                                  \
+    back = UnitConverter::to_unit< QUANTITY_##N >(si, u);                                                             \
+    siname = UnitConverter::get_SI_unit_name(QUANTITY_##N);                                                           \
+    return true;                                                                                                      \
+  }
+  CMI_QLIST(X)
+#undef X
+  return false;
+}
+static double reldev(double a, double b) {
+  double d = std::abs(a / b - 1.) * 1.e12;
+  if (!(d < 1.e9))
+    d = 1.e9;
+  return d;
+}
+static void unit_line(FILE *out, const std::string &a, const std::string &b, double dev) {
+  fprintf(out, "{\"e\":\"unit\",\"a\":\"%s\",\"b\":\"%s\",\"dev\":%ld}\n", a.c_str(), b.c_str(), (long)std::llround(dev));
+}
 static int do_units(const char *in, const char *outname) {
   std::ifstream f(in);
   FILE *out = fopen(outname, "w");
@@ -266,6 +295,43 @@ static int do_units(const char *in, const char *outname) {
       pos = nxt + 1;
     }
     part.push_back(line.substr(pos));
+    if (part[0] == "Q") {
+      // Q|quantity|base spelling|unit|mantissa|exponent: three laws, three output lines
+      const double v = atof(part[4].c_str()) * std::pow(10., atof(part[5].c_str()));
+      double si = 0., back = 0., one = 0., dummy = 0.;
+      std::string siname, sn2;
+      if (!q_convert(part[1], v, part[3], si, back, siname) || !q_convert(part[1], 1., part[2], one, dummy, sn2)) {
+        fprintf(stderr, "unknown quantity %s\n", part[1].c_str());
+        return 3;
+      }
+      unit_line(out, part[1], "base units are the SI unit", reldev(one, 1.));
+      unit_line(out, part[1], "to_SI and to_unit", reldev(back, v));
+      unit_line(out, part[1], "to_SI agrees with convert", reldev(si, UnitConverter::convert(v, part[3], siname)));
+      fflush(out);
+      continue;
+    }
+    if (part[0] == "X") {
+      const double v = atof(part[3].c_str()) * std::pow(10., atof(part[4].c_str()));
+      const double there = UnitConverter::convert(v, part[1], part[2]);
+      unit_line(out, part[1], part[2] + " and back", reldev(UnitConverter::convert(there, part[2], part[1]), v));
+      fflush(out);
+      continue;
+    }
+    if (part[0] == "T") {
+      const double f = atof(part[5].c_str()) * std::pow(10., atof(part[6].c_str()));
+      unit_line(out, part[1] + " -> " + part[2], part[3] + " -> " + part[4],
+                reldev(UnitConverter::convert(1., part[1], part[2]), f * UnitConverter::convert(1., part[3], part[4])));
+      fflush(out);
+      continue;
+    }
+    if (part[0] == "S") {
+      const double k = atof(part[3].c_str());
+      const double f = atof(part[4].c_str()) > 0 ? k : 1. / k;
+      unit_line(out, part[1] + " -> " + part[2], "scaling",
+                reldev(UnitConverter::convert(k, part[1], part[2]), f * UnitConverter::convert(1., part[1], part[2])));
+      fflush(out);
+      continue;
+    }
     double dev;
     if (part[0] == "P") {
       // P|compound|part|exponent|part|exponent...: SI value of the compound vs the product of its parts
